@@ -276,7 +276,7 @@ def vm_crosscheck(lines, expected, n=40):
                "Definition reqs : list string := ["]
         src.append(";\n".join('"%s"' % lines[i].replace('"', '""') for i in idx))
         src.append("].")
-        src.append("Definition out := map (fun r => string_of_list_ascii (handle5 (list_ascii_of_string r))) reqs.")
+        src.append("Definition out := map (fun r => string_of_list_ascii (handle6 (list_ascii_of_string r))) reqs.")
         src.append("Set Printing Width 1000000. Set Printing Depth 1000000.")
         src.append("Goal True. let v := eval vm_compute in out in")
         src.append("  let rec pr l := lazymatch l with | ?x :: ?t => idtac \"VMOUT\" x; pr t | _ => idtac end in pr v. exact I. Qed.")
